@@ -220,7 +220,30 @@ def run(tier, seed, replay=None):
                " QGraphicsView { backgroundBrush: %s }\n"
                " QLabel { palette.window: %s; palette.disabled.text: %s }\n}\n" % (" 1.0" if warn else "", lit, lit, lit, lit))
         jobs.append({"id": "e%d" % i, "source": src, "modes": ["generate"], "want": ["ui"]})
+    # digit escapes: "\\1" is an octal escape (a control character) in ECMAScript and no escape at all in QML -- whichever reading a
+    # tool takes, "#\\1\\2\\3" is not the colour #123: it has to be refused
+    raw = []
+    for k in range(24 if tier == "quick" else 240):
+        col = "#" + "".join(rng.choice("1234567abcdef0") for _ in range(rng.choice((3, 4, 6, 8))))
+        pos = [i for i, c in enumerate(col) if c in "1234567"]
+        if not pos:
+            continue
+        esc = set(rng.sample(pos, rng.randint(1, len(pos))))
+        lit = '"' + "".join(("\\" + c) if i in esc else c for i, c in enumerate(col)) + '"'
+        raw.append((lit, col))
+        jobs.append({"id": "r%d" % (len(raw) - 1), "source": "import qmluic.QtWidgets\nQColorDialog {\n currentColor: %s\n"
+                     " QGraphicsView { backgroundBrush: %s }\n}\n" % (lit, lit), "modes": ["generate"], "want": ["ui"]})
     out = common.translate(jobs, tag="c19")
+    n_raw = 0
+    for k, (lit, col) in enumerate(raw):
+        rs = out.results.get("r%d" % k)
+        if not rs:
+            v.inconc("no result for literal %s" % lit)
+        elif rs[0].get("built") and not rs[0].get("has_error") and not rs[0].get("has_syntax_error"):
+            v.violation("e2e-accepted-noncolour:digit-escape", "the literal %s (digit escapes; not the string %r under any reading) is accepted"
+                        % (lit, col), {"literal": lit, "ui": rs[0].get("ui")})
+        else:
+            n_raw += 1
     e2e = 0
     for i, (s, cls) in enumerate(picks):
         rs = out.results.get("e%d" % i)
@@ -287,5 +310,5 @@ def run(tier, seed, replay=None):
         samples=samples,
         exhaustive=False,
         exhaustive_subspaces={"hex3_lowercase": 4096, "hex4_lowercase": 65536, "svg_keywords": len(SVG_COLORS)},
-        by_class=classes, accepted=accepted, rejected=rejected, end_to_end_checked=e2e,
+        by_class=classes, accepted=accepted, rejected=rejected, end_to_end_checked=e2e, digit_escape_literals_refused=n_raw,
     )
